@@ -128,6 +128,17 @@ type exec struct {
 	timers   [maxTimers]timer
 	panicMsg string
 	panicThr int
+	quiet    bool // choices are not explored: always alternative 0, nothing recorded
+}
+
+// SetExplore switches exploration of choice points off (set-up phases such as
+// a handshake that must simply run to completion deterministically) and on.
+//
+//go:norace
+func SetExplore(on bool) {
+	if cur != nil {
+		cur.quiet = !on
+	}
 }
 
 var cur *exec
@@ -218,7 +229,7 @@ func (e *exec) pick(me int, kind Kind) int {
 			return -1
 		}
 		choice := 0
-		if n > 1 {
+		if n > 1 && !e.quiet {
 			if e.pos < len(e.prefix) {
 				choice = e.prefix[e.pos]
 				if choice < 0 || choice >= n {
@@ -408,7 +419,7 @@ func StopTimer(h int) {
 //go:norace
 func Choose(n int) int {
 	e := cur
-	if e == nil || e.aborting || n <= 1 {
+	if e == nil || e.aborting || n <= 1 || e.quiet {
 		return 0
 	}
 	choice := 0
